@@ -22,13 +22,13 @@ from common import fl, fl_list
 import p_c17
 
 GEN_PREFIXES = ["verif/interval.py", "verif/util.py", "verif/metric.py"]
-EXTRA_TARGETS = ["Model/Diagrams.vo", "Gen/Gen_interval.vo", "Gen/Gen_contingency.vo", "Model/Render.vo"]
+EXTRA_TARGETS = ["Model/Diagrams.vo", "Gen/Gen_interval.vo", "Gen/Gen_contingency.vo", "Gen/Gen_prob.vo", "Model/Brier.vo", "Model/Render.vo"]
 ASSUMPTIONS = ["the arrays delivered by verif.data.Data.get_scores are taken from the real object (their correctness is C01-C15)",
                "values are multiples of 1/4 (1/16 for PIT, 1/8 for probabilities) so sums are exact in binary floating point",
                "not modelled: droc, murphy, economicvalue, bsdecomp, igncontrib, fss, autocorr/autocov, "
                "against, invreliability, meteo, rank/impact views, maps, the quantile lines of scatter"]
 NAN = float("nan")
-PRE = "From VF Require Import Base.Num Base.Vec Base.Event Gen.Gen_interval Gen.Gen_contingency Model.Diagrams.\nNotation X := XF."
+PRE = "From VF Require Import Base.Num Base.Vec Base.Event Gen.Gen_interval Gen.Gen_contingency Gen.Gen_prob Model.Brier Model.Diagrams.\nNotation X := XF."
 QS = [0.1, 0.25, 0.5, 0.75, 0.9]
 PS = [1, 3, 5]
 
@@ -452,6 +452,148 @@ def _explore(out, tier, seed, facts, replay, tmp):
                             out.violation("economicvalue:definition", "verif %s, input %d: at cost-loss ratio %r the curve shows %r; mean expenses (forecast %r, climatology %r, perfect %r) give %r"
                                           % (" ".join(args), k, a_, float(y_), exp_f, exp_c, exp_p, want), rep)
                             break
+
+            # ---- deterministic ROC: one (false alarm rate, hit rate) point per forecast threshold, between (1,1) and (0,0) ----
+            t_d = rng.choice(PS)
+            bt_d = rng.choice(["above", "above=", "below", "below="])
+            BTC = {"above": "Above", "above=": "AboveEq", "below": "Below", "below=": "BelowEq"}
+            somes = "(fun l => flat_map (fun o => match o with Some i => [i] | None => [] end) l)"
+            for diag in ("droc", "droc0"):
+                args = ["-m", diag, "-r", str(t_d), "-b", bt_d, "-simple"]
+                fig, rep, _ = run(args)
+                if fig is None:
+                    continue
+                ls = lines_of(fig.axes[0], names)
+                if len(ls) != F:
+                    out.violation("%s:series" % diag, "-m %s: %d lines for %d inputs" % (diag, len(ls), F), rep)
+                fth = [float(t_d)] if diag == "droc0" else [float(x) for x in np.linspace(t_d - 10, t_d + 10, 31)]
+                for k, l in enumerate(ls[:F]):
+                    o, fc = data.get_scores([OBS, FC], k)
+                    add(diag, "verif %s, input %d" % (" ".join(args), k),
+                        "(match %s (get_intervals X %s [%s]) with iv :: _ => let r := droc X iv (%s (get_intervals X %s %s)) %s %s in (map fst r ++ map snd r)%%list | [] => [] end)"
+                        % (somes, BTC[bt_d], fl(float(t_d)), somes, BTC[bt_d], fvec(fth), fvec(o), fvec(fc)),
+                        list(np.asarray(l.get_xdata()).flatten()) + list(np.asarray(l.get_ydata()).flatten()), rep)
+
+            # ---- Murphy diagram: mean elementary score at 21 probability thresholds ----------------------------------------
+            t_m = rng.choice(PS)
+            bt_m = rng.choice(["above", "above=", "below", "below="])
+            args = ["-m", "murphy", "-r", str(t_m), "-b", bt_m]
+            fig, rep, _ = run(args)
+            if fig is not None:
+                ls = lines_of(fig.axes[0], names)
+                if len(ls) != F:
+                    out.violation("murphy:series", "-m murphy: %d lines for %d inputs" % (len(ls), F), rep)
+                for k, l in enumerate(ls[:F]):
+                    o, cdf = data.get_scores([OBS, verif.field.Threshold(t_m)], k, NO)
+                    if len(o) == 0 or np.any(np.isnan(o)):
+                        continue
+                    ev = {"above": o > t_m, "above=": o >= t_m, "below": o < t_m, "below=": o <= t_m}[bt_m]
+                    pr = 1 - cdf if bt_m.startswith("above") else cdf
+                    xs_ = [float(x) for x in l.get_xdata()]
+                    if len(xs_) != 21 or any(abs(a_ - j / 20.0) > 1e-12 for j, a_ in enumerate(xs_)):
+                        out.violation("murphy:grid", "verif %s, input %d: the probability thresholds on the x-axis are %r, expected j/20 for j = 0..20" % (" ".join(args), k, xs_), rep)
+                        continue
+                    add("murphy", "verif %s, input %d" % (" ".join(args), k),
+                        "map (fun e => murphy_score X e %s %s) %s" % (bools(ev), fvec(pr), fvec(xs_)), list(l.get_ydata()), rep)
+                    # independent reading: elementary score S_e(p, o) = 2e [p > e, o = 0] + 2(1-e) [p < e, o = 1] + 2e(1-e) [p = e]
+                    for e_, y_ in zip(xs_, l.get_ydata()):
+                        want = float(np.mean(np.where(pr > e_, np.where(ev, 0.0, 2 * e_), np.where(pr < e_, np.where(ev, 2 * (1 - e_), 0.0), 2 * e_ * (1 - e_)))))
+                        if abs(want - float(y_)) > 1e-6:
+                            out.violation("murphy:definition", "verif %s, input %d: at probability threshold %r the curve shows %r, the mean elementary score is %r"
+                                          % (" ".join(args), k, e_, float(y_), want), rep)
+                            break
+
+            # ---- inverse reliability: per bin of the forecast quantile, mean quantile against share of obs at or below it ----
+            q_i = rng.choice(QS)
+            i_edges = sorted(rng.sample([-2, 0, 1, 2, 3, 4, 5, 6, 8, 10], rng.randint(3, 6)))
+            args = ["-m", "invreliability", "-q", str(q_i), "-r", ",".join(str(e) for e in i_edges), "-simple"]
+            fig, rep, _ = run(args)
+            if fig is not None:
+                ls = lines_of(fig.axes[0], names)
+                if len(ls) != F:
+                    out.violation("invreliability:series", "-m invreliability: %d lines for %d inputs" % (len(ls), F), rep)
+                for k, l in enumerate(ls[:F]):
+                    o, qv = data.get_scores([OBS, verif.field.Quantile(q_i)], k, NO)
+                    if len(o) == 0 or np.any(np.isnan(o)):
+                        continue
+                    add("invreliability", "verif %s, input %d" % (" ".join(args), k),
+                        xy_expr("invreliability X %s %s %s" % (fvec(i_edges), fvec(o), fvec(qv))), list(l.get_xdata()) + list(l.get_ydata()), rep)
+
+            # ---- ignorance contribution: per probability bin: mean probability, scaled ignorance, count (second panel) ------
+            t_g = rng.choice(PS)
+            bt_g = rng.choice(["above", "above=", "below", "below="])
+            args = ["-m", "igncontrib", "-r", str(t_g), "-b", bt_g]
+            fig, rep, _ = run(args)
+            if fig is not None and len(fig.axes) >= 2:
+                ls = lines_of(fig.axes[0], names)
+                ls2 = list(fig.axes[1].get_lines())
+                if len(ls) != F or len(ls2) != F:
+                    out.violation("igncontrib:series", "-m igncontrib: %d curves and %d count lines for %d inputs" % (len(ls), len(ls2), F), rep)
+                g_edges = [float(x) for x in np.linspace(0, 1, 12)]
+                for k in range(min(F, len(ls), len(ls2))):
+                    o, cdf = data.get_scores([OBS, verif.field.Threshold(t_g)], k, NO)
+                    if len(o) == 0 or np.any(np.isnan(o)):
+                        continue
+                    ev = {"above": o > t_g, "above=": o >= t_g, "below": o < t_g, "below=": o <= t_g}[bt_g]
+                    pr = 1 - cdf if bt_g.startswith("above") else cdf
+                    counts = [float(x) for x in ls2[k].get_ydata()]
+                    if abs(sum(counts) - len(pr)) > 1e-9:
+                        lost = sorted(set(float(x) for x in pr[~((pr >= 0) & (pr < 1))]))
+                        out.violation("binning:igncontrib", "verif %s, input %d: the bins hold %g of the %d cases; forecasts with probability %r are in no bin" % (
+                            " ".join(args), k, sum(counts), len(pr), lost), rep)
+                        continue
+                    with np.errstate(all="ignore"):
+                        add("igncontrib", "verif %s, input %d" % (" ".join(args), k),
+                            "(let r := igncontrib X %s %s %s in (fst (fst r) ++ snd (fst r) ++ map (n_ofnat X) (snd r))%%list)" % (fvec(g_edges), bools(ev), fvec(pr)),
+                            list(ls[k].get_xdata()) + list(ls[k].get_ydata()) + counts, rep)
+
+            # ---- autocorr / autocov: (distance, correlation or covariance of the errors) for every ordered pair along -x -------
+            for diag in ("autocorr", "autocov"):
+                axn_a = rng.choice(["leadtime", "time", "lat", "lon", "elev"])
+                args = ["-m", diag, "-x", axn_a, "-simple"]
+                fig, rep, _ = run(args)
+                if fig is None:
+                    continue
+                ls = lines_of(fig.axes[0], names)
+                if len(ls) != F:
+                    out.violation("%s:series" % diag, "-m %s: %d point series for %d inputs" % (diag, len(ls), F), rep)
+                for k, l in enumerate(ls[:F]):
+                    o3, f3 = data.get_scores([OBS, FC], k)
+                    er = o3 - f3
+                    if axn_a == "leadtime":
+                        coords, scale, rows_ = data.leadtimes, 1.0, [er[:, i, :].flatten() for i in range(er.shape[1])]
+                    elif axn_a == "time":
+                        coords, scale, rows_ = data.times, 3600.0, [er[i, :, :].flatten() for i in range(er.shape[0])]
+                    else:
+                        coords = [getattr(loc, axn_a) for loc in data.locations]
+                        scale, rows_ = 1.0, [er[:, :, i].flatten() for i in range(er.shape[2])]
+                    with np.errstate(all="ignore"):
+                        add(diag, "verif %s, input %d" % (" ".join(args), k),
+                            xy_expr("auto_points X %s %s %s %s" % ("true" if diag == "autocov" else "false", fl(scale), fvec(coords), fvecs(rows_))),
+                            list(l.get_xdata()) + list(l.get_ydata()), rep)
+
+            # ---- Brier score decomposition diagram: (reliability, resolution) per slice -------------------------------------
+            t_b = rng.choice(PS)
+            bt_b = rng.choice(["above", "below"])
+            axn_b = rng.choice([None, "leadtime", "location"])
+            args = ["-m", "bsdecomp", "-r", str(t_b), "-b", bt_b] + (["-x", axn_b] if axn_b else [])
+            fig, rep, _ = run(args)
+            if fig is not None:
+                ls = lines_of(fig.axes[0], names)
+                if len(ls) != F:
+                    out.violation("bsdecomp:series", "-m bsdecomp: %d point series for %d inputs" % (len(ls), F), rep)
+                axis_b = verif.axis.get(axn_b) if axn_b else NO
+                size_b = data.get_axis_size(axis_b)
+                for k, l in enumerate(ls[:F]):
+                    sl = []
+                    for i in range(size_b):
+                        o, cdf = data.get_scores([OBS, verif.field.Threshold(t_b)], k, axis_b, i)
+                        ev = (o > t_b) if bt_b == "above" else (o < t_b)
+                        sl.append((np.where(np.isnan(o), np.nan, ev.astype(float)), 1 - cdf if bt_b == "above" else cdf))
+                    add("bsdecomp", "verif %s, input %d" % (" ".join(args), k),
+                        "(map (fun z => BsRel_model X (fst z) (snd z)) [%s] ++ map (fun z => BsRes_model X (fst z) (snd z)) [%s])%%list" % (
+                            "; ".join("(%s, %s)" % (fvec(a_), fvec(b_)) for a_, b_ in sl), "; ".join("(%s, %s)" % (fvec(a_), fvec(b_)) for a_, b_ in sl)),
+                        list(np.asarray(l.get_xdata()).flatten()) + list(np.asarray(l.get_ydata()).flatten()), rep)
 
             # ---- freq: share of forecasts (per input) and of observations inside each interval ------------------------
             f_edges = sorted(rng.sample([0, 1, 2, 3, 4, 5, 6, 7, 8], rng.randint(3, 6)))
